@@ -246,6 +246,35 @@ func (w *c17World) opNew() {
 	w.checkFresh(m, fmt.Sprintf("new #%d", id), false)
 }
 
+// opNewRefused asks the builder for a frame it must refuse (a part over its
+// limit, as a tun packet larger than the frame payload limit produces); the
+// refusal may not leave anything behind that shows up in later frames.
+func (w *c17World) opNewRefused() {
+	c := w.c
+	id := w.nextID
+	w.nextID++
+	mt := c17Types[c.Pick("type", len(c17Types))]
+	swN, plN, apxN := 0, 100, 0
+	what := core.OneOf(c, "refused.what", "payload", "payload", "switch-block", "appendix")
+	switch what {
+	case "payload":
+		// (kept below the largest pooled buffer: beyond it NewFrameV1 does not
+		// refuse but runs into a nil buffer - no caller builds frames that big)
+		plN = core.OneOf(c, "refused.payload", 10001, 10500, 20000, 60000)
+	case "switch-block":
+		swN = core.OneOf(c, "refused.sw", 256, 300, 1000)
+	default:
+		apxN = core.OneOf(c, "refused.apx", 10001, 12000, 50000)
+	}
+	src, dst := c17Addr(id, 1), c17Addr(id, 2)
+	f, err := w.b.NewFrameV1(src, dst, mt, c17Fill(swN, id), c17Fill(plN, id), c17Fill(apxN, id))
+	w.log("newRefused #%d %s over its limit (sw=%d payload=%d apx=%d): err=%v", id, what, swN, plN, apxN, err != nil)
+	if err == nil {
+		// The builder took it after all: treat it as released at once.
+		f.ReturnToPool()
+	}
+}
+
 func (w *c17World) opParse() {
 	c := w.c
 	// Source bytes: a live frame or a released one.
@@ -611,7 +640,7 @@ func c17Run(c *core.Case, maxOps int) {
 	n := c.Int("ops", 1, maxOps)
 	for i := 0; i < n; i++ {
 		var step string
-		switch c.Weighted("op", 0, 22, 10, 14, 8, 14, 10, 8, 14, 8, 5) {
+		switch c.Weighted("op", 0, 22, 10, 14, 8, 14, 10, 8, 14, 8, 5, 5) {
 		case 1:
 			w.opNew()
 			step = "new"
@@ -639,6 +668,9 @@ func c17Run(c *core.Case, maxOps int) {
 		case 10:
 			w.opRawBuffer()
 			step = "rawBuffer"
+		case 11:
+			w.opNewRefused()
+			step = "newRefused"
 		default:
 			w.opRelease()
 			step = "release"
